@@ -1,0 +1,8 @@
+//go:build verif
+
+package redblacktree
+
+// VerifColor is a read-only accessor for the verification harness: true = black, false = red.
+func (node *Node[K, V]) VerifColor() bool {
+	return bool(node.color)
+}
